@@ -21,7 +21,17 @@ RULE = ("loader kinds manual / empirical / marginal-direct / marginal-sampling /
         "without n_samples; sampling mode only with explicit True; the other loaders must ignore both keys), "
         "joint_degree_type also present on direct construction and given as enum or as string; malformed: all-zero marginal "
         "(ZeroDivisionError), fewer callables "
-        "than bounds (IndexError), sampling without dimensions (ValueError). The oracle is lenient and primitive-agnostic: a "
+        "than bounds (IndexError), sampling without dimensions (ValueError). HISTORIES (a third of the exhaustive empirical "
+        "sequences, 40% of the random valid cases, six corpus cases per path): after the loader was built the caller "
+        "edits the objects the loader holds - the observed sequence / dictionary / motif sizes through the public "
+        "accessors empirical_jds / jdd / motif_sizes (in the code these ARE the caller's own objects), the caller's bounds "
+        "list and callable list in place - and calls create_jdd() again, 1-3 steps: same object with the SAME length "
+        "(entries re-assigned), same object with another length (tail deleted / appended, dimension changed), a new or "
+        "a new EQUAL object through the setter, the SAME callables answering differently, new callables in the same "
+        "list, nothing changed, optionally the previously exposed jdd dict damaged first and the motif sizes changed, a "
+        "quarter of the steps building a NEW loader from the same params dict instead of calling create_jdd(); "
+        "every further answer is compared with the model of the CURRENT contents and judged by c06_check on the "
+        "CURRENT contents. The oracle is lenient and primitive-agnostic: a "
         "call of any random primitive the documented behaviour does not make is answered from a seeded fallback and recorded "
         "(a correspondence difference), and the distribution finally exposed is still judged by the verified checker. "
         "Compared: the .jdd mapping as a key->value map, "
@@ -31,7 +41,9 @@ RULE = ("loader kinds manual / empirical / marginal-direct / marginal-sampling /
 EXHAUSTIVE = {"quick": True, "thorough": True}
 EXPLANATION = ("general theorems (all inputs) in Props/C06.v; sampling-limit clause partial (the result is proved to be the "
                "empirical law of the column-stacked oracle answers; the law of large numbers for the RNG oracle is not "
-               "proved); correspondence exhaustive on small families + random; verified checker c06_check on every output")
+               "proved); correspondence exhaustive on small families + random; verified checker c06_check on every output, "
+               "including every later create_jdd() of a history after the caller edited the held objects (judged "
+               "against their current contents)")
 ASSUMPTIONS = ["float products/sums of the dyadic table values are exact; each float division is within 1e-9 (relative)",
                "random.choices follows the weights (see C05); numpy.column_stack(...).tolist() transposes as modelled",
                "itertools.product enumerates the box (order irrelevant: maps are compared as maps)"]
@@ -202,8 +214,8 @@ def _rand_empirical(rng):
     return {"kind": 1, "jds": [list(rng.choice(pool)) for _ in range(rng.randint(0, 14))], "sizes": _sizes(rng, T)}
 
 
-def _rand_direct(rng, bad=None):
-    d = rng.randint(0, 3)
+def _rand_direct(rng, bad=None, d=None):
+    d = rng.randint(0, 3) if d is None else d
     b = _bounds(rng, d, False)
     ts = [_table(rng, x[0], max(x[1], x[0]), neg=(rng.random() < 0.1)) for x in b]
     if bad == "zero" and d > 0:
@@ -216,8 +228,8 @@ def _rand_direct(rng, bad=None):
     return {"kind": 2, "bounds": b, "tables": ts, "sizes": _sizes(rng, d)}
 
 
-def _rand_sampling(rng, path, bad=None):
-    d = rng.randint(1, 3)
+def _rand_sampling(rng, path, bad=None, d=None, n=None):
+    d = rng.randint(1, 3) if d is None else d
     b = _bounds(rng, d, True)
     ts = []
     for x in b:
@@ -227,7 +239,7 @@ def _rand_sampling(rng, path, bad=None):
             if sum(dd.get(v, 0) for v in closed(x)) > 0:
                 break
         ts.append(t)
-    n = rng.randint(1, 12)
+    n = rng.randint(1, 12) if n is None else n
     if bad == "nodims":
         b, ts = [], []
     if bad == "short":
@@ -236,8 +248,8 @@ def _rand_sampling(rng, path, bad=None):
     return {"kind": 3, "bounds": b, "tables": ts, "n": n, "rounds": rounds, "sizes": _sizes(rng, len(b))}
 
 
-def _rand_function(rng):
-    d = rng.randint(0, 3)
+def _rand_function(rng, d=None):
+    d = rng.randint(0, 3) if d is None else d
     b = _bounds(rng, d, True)
     box = list(itertools.product(*[closed(x) for x in b]))
     ft = []
@@ -252,6 +264,118 @@ def _rand_function(rng):
         k = [x[1] + 1 for x in b]
         ft.append([k, qt(_dy(rng, 1, 9))])
     return {"kind": 4, "bounds": b, "ftable": ft, "sizes": _sizes(rng, d)}
+
+
+DATA = {0: ["jdd"], 1: ["jds"], 2: ["bounds", "tables"], 3: ["bounds", "tables", "rounds"], 4: ["bounds", "ftable"]}
+
+
+def _then(rng, c):
+    """HISTORY on the caller's own objects: after the loader was built the caller EDITS THE OBJECTS IT PASSED IN (the
+    loaders hold them, they do not copy) and calls create_jdd() again; every further answer must be the law of the
+    CURRENT contents.  One to three steps; `how` of a step:
+      inplace        same object, new contents: list entries re-assigned one by one (same length), tail deleted / extended
+                     (other length); dictionary values / keys changed in place; bounds entries re-assigned; the SAME
+                     callables answer differently (their tables change)
+      new_callables  as inplace, but the callables in the caller's list are replaced by new function objects
+      setter         a NEW object through the public setter (empirical_jds / jdd / motif_sizes); loaders without a setter:
+                     as inplace
+      equal          nothing changes but the object: a new EQUAL object through the setter (or no change at all)
+      repeat         nothing changes, create_jdd() once more
+    `same_len` asks for new contents of the SAME length / dimension (the neighbour case of 'the list grew');
+    `damage` : the caller also damages the previously exposed jdd dict first (loaders that build it themselves);
+    `sizes`  : the motif sizes change too (in place or through the setter) - never part of the law;
+    `reload` : instead of create_jdd() on the old loader, a NEW loader is built from the same params dict (same
+               construction path; it replaces the old one for the following steps)."""
+    k = c["kind"]
+    steps = []
+    cur = c
+    for _ in range(rng.choice([1, 1, 2, 3])):
+        how = rng.choice(["inplace", "inplace", "inplace", "new_callables", "setter", "equal", "repeat"])
+        same_len = rng.random() < 0.6
+        st = {"how": how, "damage": rng.random() < 0.3, "reload": rng.random() < 0.25}
+        if how in ("equal", "repeat"):
+            new = {f: copy.deepcopy(cur[f]) for f in DATA[k]}
+        elif k == 0:
+            jdd = copy.deepcopy(cur["jdd"])
+            T = len(jdd[0][0]) if jdd else max(1, len(cur.get("sizes", [2])))
+            for _ in range(rng.randint(1, 3)):
+                r = rng.random()
+                if jdd and r < 0.4:
+                    jdd[rng.randrange(len(jdd))][1] = qt(_dy(rng, 0, 9))          # same keys, other value
+                elif jdd and r < 0.7:
+                    key = [rng.randint(5, 8) for _ in range(T)]                    # a key replaced (same length)
+                    if key not in [x[0] for x in jdd]:
+                        jdd[rng.randrange(len(jdd))][0] = key
+                elif not same_len:
+                    if jdd and rng.random() < 0.5:
+                        del jdd[rng.randrange(len(jdd))]
+                    else:
+                        key = [rng.randint(5, 8) for _ in range(T)]
+                        if key not in [x[0] for x in jdd]:
+                            jdd.append([key, qt(_dy(rng, 0, 9))])
+            new = {"jdd": jdd}
+        elif k == 1:
+            jds = copy.deepcopy(cur["jds"])
+            T = len(jds[0]) if jds else max(1, len(cur.get("sizes", [2])))
+            fresh = [[rng.randint(0, 6) for _ in range(T)] for _ in range(2)]
+            for _ in range(rng.randint(1, 3)):
+                if jds:
+                    jds[rng.randrange(len(jds))] = list(rng.choice(fresh + jds))    # entries re-measured
+            if not same_len:
+                if jds and rng.random() < 0.5:
+                    del jds[rng.randrange(len(jds)):]
+                else:
+                    jds += [list(rng.choice(fresh + jds)) for _ in range(rng.randint(1, 4))]
+            new = {"jds": jds}
+        elif k == 2:
+            x = _rand_direct(rng, d=len(cur["bounds"]) if same_len else None)
+            new = {"bounds": x["bounds"], "tables": x["tables"]}
+            if same_len and rng.random() < 0.4:
+                new["bounds"] = copy.deepcopy(cur["bounds"])                       # only the callables' behaviour changes
+                new["tables"] = [_table(rng, b[0], max(b[1], b[0])) for b in new["bounds"]] + cur["tables"][len(cur["bounds"]):]
+            elif same_len and rng.random() < 0.3 and len(cur["tables"]) >= len(cur["bounds"]):
+                new["tables"] = copy.deepcopy(cur["tables"])                       # only the bounds change
+        elif k == 3:
+            x = _rand_sampling(rng, 0, d=len(cur["bounds"]) if same_len else None, n=c["n"])
+            new = {"bounds": x["bounds"], "tables": x["tables"], "rounds": x["rounds"]}
+        else:
+            x = _rand_function(rng, d=len(cur["bounds"]) if same_len else None)
+            new = {"bounds": x["bounds"], "ftable": x["ftable"]}
+            if same_len and rng.random() < 0.4:
+                new["bounds"] = copy.deepcopy(cur["bounds"])                       # only the callable's behaviour changes
+                new["ftable"] = [[key, qt(_dy(rng, 0, 9))] for key, _ in cur["ftable"]]
+        st.update(new)
+        if rng.random() < 0.25 and cur.get("sizes"):
+            sz = list(cur["sizes"])
+            sz[rng.randrange(len(sz))] = rng.choice([2, 3, 4, 6])
+            st["sizes"] = sz
+        steps.append(st)
+        cur = step_case(cur, st)
+    c["then"] = steps
+    return c
+
+
+def step_case(cur, st):
+    """the case describing the CURRENT contents after step st (direct construction, no history)"""
+    k = cur["kind"]
+    out = {"kind": k, "path": 0}
+    for f in DATA[k] + (["n"] if k == 3 else []) + ["sizes"]:
+        if f in st:
+            out[f] = st[f]
+        elif f in cur:
+            out[f] = cur[f]
+    if k == 3 and "rounds" in st:
+        out["rounds"] = st["rounds"][:1]
+    return out
+
+
+def step_cases(case):
+    out = []
+    cur = case
+    for st in case.get("then", []):
+        cur = step_case(cur, st)
+        out.append(cur)
+    return out
 
 
 FIXT = [[0, qt(Fraction(1, 2))], [1, qt(Fraction(1, 4))], [2, qt(Fraction(1, 8))], [3, qt(Fraction(3, 8))], [4, qt(1)]]
@@ -277,6 +401,29 @@ def corpus():
         out.append({"kind": 1, "path": path, "jds": [[2, 1], [0, 1], [2, 1], [1, 2]], "sizes": [3, 4]})
         out.append({"kind": 1, "path": path, "jds": [[5]], "sizes": [2],
                     "opts": {"use_sampling": "True", "n_samples": 3, "type_key": "enum"}})
+        # histories: the caller edits the objects it passed in and calls create_jdd() again
+        out.append({"kind": 1, "path": path, "jds": [[1, 0], [1, 0], [2, 1], [3, 0]], "sizes": [2, 3], "then": [
+            {"how": "inplace", "damage": False, "jds": [[3, 0], [5, 1], [2, 1], [3, 0]]},                 # same length
+            {"how": "inplace", "damage": True, "jds": [[3, 0], [5, 1], [2, 1], [3, 0], [4, 4], [4, 4]]},   # grew
+            {"how": "setter", "damage": False, "jds": [[0, 2], [0, 2], [1, 1]]}]})                        # a new object
+        out.append({"kind": 0, "path": path, "jdd": [[[1, 0], qt(Fraction(1, 2))], [[2, 1], qt(Fraction(1, 2))]], "then": [
+            {"how": "inplace", "damage": False, "jdd": [[[1, 0], qt(Fraction(1, 4))], [[3, 3], qt(Fraction(3, 4))]]},
+            {"how": "setter", "damage": False, "jdd": [[[0, 0], qt(1)]]}]})
+        out.append({"kind": 2, "path": path, "bounds": [[0, 3], [1, 3]], "tables": [FIXT, FIXT], "sizes": [2, 3], "then": [
+            {"how": "inplace", "damage": False, "bounds": [[0, 3], [1, 3]], "tables": [FIXT[::-1], FIXT[1:]]},
+            {"how": "inplace", "damage": True, "bounds": [[1, 4], [0, 2]], "tables": [FIXT[::-1], FIXT[1:]], "sizes": [2, 4]},
+            {"how": "new_callables", "damage": False, "bounds": [[1, 4]], "tables": [FIXT]}]})
+        out.append({"kind": 4, "path": path, "bounds": [[0, 1]], "ftable": [[[0], qt(Fraction(1, 2))], [[1], qt(Fraction(1, 4))]],
+                    "then": [{"how": "inplace", "damage": False, "bounds": [[0, 1]],
+                              "ftable": [[[0], qt(Fraction(1, 8))], [[1], qt(3)]]},
+                             {"how": "inplace", "damage": True, "bounds": [[1, 2]],
+                              "ftable": [[[0], qt(Fraction(1, 8))], [[1], qt(3)]]}]})
+        out.append({"kind": 3, "path": path, "bounds": [[0, 2], [1, 2]], "tables": [FIXT, FIXT], "n": 4,
+                    "rounds": [[[0, 2, 2, 1], [1, 1, 0, 0]], [[2, 2, 0, 1], [0, 1, 0, 1]]][:1 + path],
+                    "then": [{"how": "inplace", "damage": False, "bounds": [[1, 2], [0, 2]], "tables": [FIXT[::-1], FIXT],
+                              "rounds": [[[1, 0, 0, 1], [2, 1, 0, 0]]]},
+                             {"how": "repeat", "damage": True, "bounds": [[1, 2], [0, 2]], "tables": [FIXT[::-1], FIXT],
+                              "rounds": [[[0, 0, 1, 1], [2, 2, 2, 0]]]}]})
     return out
 
 
@@ -288,8 +435,16 @@ def generate(rng, tier):
     for n in range(0, maxlen + 1):
         for seq in itertools.product(range(3), repeat=n):
             i += 1
-            yield {"kind": 1, "path": i % 2, "jds": [list(keys3[j]) for j in seq],
-                   "sizes": [[2, 2], [2, 3], [3, 5], [1, 4]][(i // 2) % 4]}
+            c = {"kind": 1, "path": i % 2, "jds": [list(keys3[j]) for j in seq],
+                 "sizes": [[2, 2], [2, 3], [3, 5], [1, 4]][(i // 2) % 4]}
+            if n and i % 3 == 0:
+                # history: the held sequence is corrected in place (same object; rotated keys = same length, or one
+                # entry dropped / added), create_jdd() again
+                m = (i // 3) % 3
+                new = [list(keys3[(j + 1 + (p % 2)) % 3]) for p, j in enumerate(seq)]
+                new = new if m == 0 else (new[:-1] if m == 1 else new + [[2, 2]])
+                c["then"] = [{"how": "inplace", "damage": i % 2 == 0, "jds": new}]
+            yield c
     # exhaustive: marginal boxes on the fixed table; the optional keys cycle through absent / explicit default
     OPT = [{"use_sampling": us, "n_samples": ns, "type_key": "default"}
            for us in ("absent", "False") for ns in ("absent", 5)]
@@ -309,11 +464,15 @@ def generate(rng, tier):
             c = mkc(rng)
             c["path"] = rng.randint(0, 1)
             c["opts"] = _opts(rng, c["kind"])
+            if rng.random() < 0.4 and is_valid(c):
+                c = _then(rng, c)
             yield c
         path = rng.randint(0, 1)
         c = _rand_sampling(rng, path)
         c["path"] = path
         c["opts"] = _opts(rng, 3, c["n"])
+        if rng.random() < 0.4:
+            c = _then(rng, c)
         yield c
     for _ in range(60 if tier == "quick" else 600):
         path = rng.randint(0, 1)
@@ -326,12 +485,134 @@ def generate(rng, tier):
 # ------------------------------------------------------------------ implementation side
 def _fp1(t):
     d = {k: float(fr(v)) for k, v in t}
-    return lambda k: d.get(k, 0.0)
+    f = lambda k: d.get(k, 0.0)                                             # noqa: E731
+    f.tab = d            # the caller can make the SAME callable answer differently (histories)
+    return f
 
 
 def _fpn(t):
     d = {tuple(k): float(fr(v)) for k, v in t}
-    return lambda jd: d.get(tuple(jd), 0.0)
+    f = lambda jd: d.get(tuple(jd), 0.0)                                    # noqa: E731
+    f.tab = d
+    return f
+
+
+def _edit_list(lst, new):
+    """make the list object `lst` hold `new`: entries re-assigned one by one, tail deleted or appended"""
+    for i in range(min(len(lst), len(new))):
+        if lst[i] != new[i]:
+            lst[i] = new[i]
+    if len(lst) > len(new):
+        del lst[len(new):]
+    for x in new[len(lst):]:
+        lst.append(x)
+
+
+def _edit_dict(d, new):
+    for key in [x for x in d if x not in new]:
+        del d[key]
+    for key, v in new.items():
+        d[key] = v
+
+
+def _obs_jdd(loader):
+    jdd = []
+    for key, v in loader.jdd.items():
+        tag = 1 if (type(key) is tuple and all(type(x) is int for x in key)) else 0
+        jdd.append([[int(x) for x in key], core.q_tree(v), tag])
+    return jdd
+
+
+def _obs_calls(clog, d):
+    if len(clog) > 12 or any(e[3] > 64 for e in clog):
+        # far more / far bigger choices calls than any case scripts: keep the observation small
+        calls, idxs = [], []
+    else:
+        calls = [[[int(x) for x in e[1]], [core.q_tree(w) for w in (e[2] or [])], e[3]] for e in clog]
+        idxs = [[int(i) for i in e[4]] for e in clog]
+    return [calls[i:i + d] for i in range(0, len(calls), d)], [idxs[i:i + d] for i in range(0, len(idxs), d)]
+
+
+def _run_step(k, st, sc, loader, params, NM, script, rebuild):
+    """apply one step of a history to the caller's own objects, call create_jdd() again (or, `reload`: build a new loader
+    from the SAME params dict, which then replaces the old one), observe; returns (observation, current loader)"""
+    how = st["how"]
+    if st.get("damage") and k != 0 and isinstance(loader.jdd, dict):
+        # the caller damaged the dict the loader exposed before (the manual loader exposes the caller's own dict)
+        for key in list(loader.jdd)[:1]:
+            del loader.jdd[key]
+        loader.jdd[(99,)] = 0.5
+    inplace = how in ("inplace", "new_callables") or (how in ("setter", "equal") and k in (2, 3, 4))
+    if how == "repeat":
+        pass
+    elif k == 0:
+        new = {tuple(key): float(fr(v)) for key, v in sc["jdd"]}
+        if inplace:
+            _edit_dict(loader.jdd, new)          # the dictionary the loader exposes (unchanged code: the caller's own)
+            if params[NM.JDD] is not loader.jdd:
+                _edit_dict(params[NM.JDD], new)
+        else:
+            params[NM.JDD] = new
+            loader.jdd = new
+    elif k == 1:
+        new = [tuple(x) for x in sc["jds"]]
+        if inplace:
+            _edit_list(loader.empirical_jds, new)    # the sequence the loader holds and exposes (the caller's own list)
+            if params[NM.JDS] is not loader.empirical_jds:
+                _edit_list(params[NM.JDS], new)
+        else:
+            params[NM.JDS] = new
+            loader.empirical_jds = new
+    else:
+        _edit_list(params[NM.LOW_HIGH_DEGREE_BOUND], [tuple(b) for b in sc["bounds"]])
+        if k == 4:
+            params[NM.FP].tab.clear()
+            params[NM.FP].tab.update(_fpn(sc["ftable"]).tab)
+        else:
+            fps = params[NM.ARR_FP]
+            newf = [_fp1(t) for t in sc["tables"]]
+            if how == "new_callables":
+                _edit_list(fps, newf)
+            else:
+                for f, g in zip(fps, newf):
+                    f.tab.clear()
+                    f.tab.update(g.tab)
+                _edit_list(fps, fps[:len(newf)] + newf[len(fps):])
+    if "sizes" in st:
+        if how == "setter":
+            loader.motif_sizes = list(st["sizes"])
+            params[NM.MOTIF_SIZES] = loader.motif_sizes
+        else:
+            _edit_list(loader.motif_sizes, list(st["sizes"]))
+            if params[NM.MOTIF_SIZES] is not loader.motif_sizes:
+                _edit_list(params[NM.MOTIF_SIZES], list(st["sizes"]))
+
+    def held():
+        if k == 0:
+            return dict(loader.jdd)
+        if k == 1:
+            return list(loader.empirical_jds)
+        return [list(params[NM.LOW_HIGH_DEGREE_BOUND]), list(params.get(NM.ARR_FP, []))]
+    before = held()
+    msz = list(loader.motif_sizes)
+    n0 = len(script.log)
+    out = {"how": how}
+    try:
+        if st.get("reload"):
+            loader = rebuild()
+            out["how"] = how + "+reload"
+        else:
+            loader.create_jdd()
+    except Exception as e:  # noqa: BLE001
+        out["exc"] = type(e).__name__
+        return out, loader
+    out["jdd"] = _obs_jdd(loader)
+    d = max(1, len(sc.get("bounds", [])))
+    out["calls"], out["answers"] = _obs_calls([e for e in script.log[n0:] if e[0] == "choices"], d)
+    out["n_choices_calls"] = sum(1 for e in script.log[n0:] if e[0] == "choices")
+    out["inputs_unchanged"] = held() == before and list(loader.motif_sizes) == msz
+    out["same_object"] = (loader.jdd is params[NM.JDD]) if k == 0 else None
+    return out, loader
 
 
 def impl(case):
@@ -384,6 +665,11 @@ def impl(case):
     tval = JointDegreeType(tname) if tk == "enum" else tname
     msz = list(params[NM.MOTIF_SIZES])
     before = inputs()
+    n_first = len(answers)
+    scs = step_cases(case)
+    if k == 3:
+        for sc in scs:
+            answers += [("choices", list(ix)) for ix in sc["rounds"][0]]
     # a call of ANY random primitive the documented behaviour does not make is answered (seeded fallback) and recorded, so
     # that the distribution finally exposed is judged by the verified checker instead of the run dying half-way
     script = oracles.LenientScript(answers, seed=len(repr(case)))
@@ -409,35 +695,52 @@ def impl(case):
                     pass
                 params[datakey] = true_val
             loader = JointDegreeDistribution.load_joint_degree(params)
-    jdd = []
-    for key, v in loader.jdd.items():
-        tag = 1 if (type(key) is tuple and all(type(x) is int for x in key)) else 0
-        jdd.append([[int(x) for x in key], core.q_tree(v), tag])
-    d = max(1, len(case.get("bounds", [])))
-    clog = [e for e in script.log if e[0] == "choices"]
-    if len(clog) > 12 or any(e[3] > 64 for e in clog):
-        # far more / far bigger choices calls than any case scripts: keep the observation small
-        calls, idxs = [], []
-    else:
-        calls = [[[int(x) for x in e[1]], [core.q_tree(w) for w in (e[2] or [])], e[3]] for e in clog]
-        idxs = [[int(i) for i in e[4]] for e in clog]
-    rounds = [calls[i:i + d] for i in range(0, len(calls), d)]
-    return {"jdd": jdd, "calls": rounds, "answers": [idxs[i:i + d] for i in range(0, len(idxs), d)],
-            "n_choices_calls": len(clog),
-            "unused_answers": len(answers) - script.pos, "unexpected": [len(script.unexpected), script.unexpected[:4]],
-            "same_object": (loader.jdd is given) if k == 0 else None, "cls": type(loader).__name__,
-            "inputs_unchanged": inputs() == before and list(loader.motif_sizes) == msz}
+        jdd = _obs_jdd(loader)
+        d = max(1, len(case.get("bounds", [])))
+        clog = [e for e in script.log if e[0] == "choices"]
+        rounds, idxs = _obs_calls(clog, d)
+        out = {"jdd": jdd, "calls": rounds, "answers": idxs, "n_choices_calls": len(clog),
+               "unused_answers": n_first - script.pos,
+               "same_object": (loader.jdd is given) if k == 0 else None, "cls": type(loader).__name__,
+               # recorded only (never judged): the loaders hold the caller's objects themselves, they make no copies
+               "holds_callers_objects": (loader.motif_sizes is params[NM.MOTIF_SIZES]) and
+               (k != 1 or loader.empirical_jds is params[NM.JDS]),
+               "inputs_unchanged": inputs() == before and list(loader.motif_sizes) == msz}
+        # history: the caller edits its own objects and asks again (same loader, same objects)
+        steps = []
+        for st, sc in zip(case.get("then", []), scs):
+            direct = case.get("path", 0) == 0 or k == 3       # a reload in sampling mode draws one round only
+            o, loader = _run_step(k, st, sc, loader, params, NM, script,
+                                  (lambda: cls(params)) if direct else (lambda: JointDegreeDistribution.load_joint_degree(params)))
+            steps.append(o)
+            if "exc" in steps[-1]:
+                break
+        if "then" in case:
+            out["then"] = steps
+            if len(steps) == len(scs) and not any("exc" in x for x in steps):
+                out["unused_answers"] = len(answers) - script.pos
+    out["unexpected"] = [len(script.unexpected), script.unexpected[:4]]
+    return out
 
 
 def model_calls(case, io):
-    return [("c06_run", [case["kind"], case.get("path", 0), payload(case), case.get("rounds", [])])]
+    calls = [("c06_run", [case["kind"], case.get("path", 0), payload(case), case.get("rounds", [])])]
+    for sc in step_cases(case):
+        calls.append(("c06_run", [sc["kind"], 0, payload(sc), sc.get("rounds", [])]))
+    return calls
 
 
-def model_obs(case, raws):
-    r = raws[0]
+def _mobs1(r):
     if r[0] == -1:
         return ["!exc", ERR.get(r[1], str(r[1]))]
     return {"jdd": r[1], "calls": r[2]}
+
+
+def model_obs(case, raws):
+    m = _mobs1(raws[0])
+    if "then" in case and not core.is_exc(m):
+        m["then"] = [_mobs1(r) for r in raws[1:]]
+    return m
 
 
 def _calls_norm(rounds):
@@ -449,16 +752,12 @@ def compare(case, io, mo):
         if core.is_exc(io) and core.is_exc(mo):
             return None if io[1] == mo[1] else f"exception class: impl {io[1]} model {mo[1]}"
         return f"impl {io if core.is_exc(io) else 'returned'} / model {mo if core.is_exc(mo) else 'returned'}"
-    im = {tuple(k): fr(q) for k, q, _ in io["jdd"]}
-    mm = {tuple(k): fr(q) for k, q in mo["jdd"]}
-    if len(im) != len(io["jdd"]):
-        return "duplicate keys in the observed jdd"
-    if set(im) != set(mm):
-        return f"jdd keys: impl-only {sorted(set(im) - set(mm))[:6]} model-only {sorted(set(mm) - set(im))[:6]}"
-    exact = case["kind"] in (0, 4)
-    for k in mm:
-        if (im[k] != mm[k]) if exact else (not core.close(im[k], mm[k])):
-            return f"jdd[{k}]: impl {im[k]} model {mm[k]}"
+    d = _cmp_law(case["kind"], io, mo)
+    if d:
+        return d
+    d = _cmp_then(case, io, mo)
+    if d:
+        return d
     if io["unexpected"][0]:
         return f"{io['unexpected'][0]} random calls the documented behaviour does not make: {io['unexpected'][1]}"
     if case["kind"] == 3:
@@ -477,12 +776,70 @@ def compare(case, io, mo):
     return None
 
 
+def _cmp_law(kind, io, mo):
+    im = {tuple(k): fr(q) for k, q, _ in io["jdd"]}
+    mm = {tuple(k): fr(q) for k, q in mo["jdd"]}
+    if len(im) != len(io["jdd"]):
+        return "duplicate keys in the observed jdd"
+    if set(im) != set(mm):
+        return f"jdd keys: impl-only {sorted(set(im) - set(mm))[:6]} model-only {sorted(set(mm) - set(im))[:6]}"
+    exact = kind in (0, 4)
+    for k in mm:
+        if (im[k] != mm[k]) if exact else (not core.close(im[k], mm[k])):
+            return f"jdd[{k}]: impl {im[k]} model {mm[k]}"
+    return None
+
+
+def _cmp_then(case, io, mo):
+    """every further create_jdd() of a history against the model evaluated on the CURRENT contents"""
+    if "then" not in case:
+        return None
+    for i, (st, ms) in enumerate(zip(io["then"], mo["then"])):
+        what = f"step {i + 1} ({st['how']}: the caller edited its own objects, create_jdd() again): "
+        if "exc" in st or core.is_exc(ms):
+            if "exc" in st and core.is_exc(ms) and st["exc"] == ms[1]:
+                return None             # both stop here
+            return what + f"impl {st.get('exc', 'returned')} / model {ms if core.is_exc(ms) else 'returned'}"
+        d = _cmp_law(case["kind"], st, ms)
+        if d:
+            return what + d
+        if case["kind"] == 3:
+            if _calls_norm(st["calls"]) != _calls_norm(ms["calls"]):
+                return what + f"choices calls: impl {st['calls']} model {ms['calls']}"
+        elif st["n_choices_calls"]:
+            return what + f"{st['n_choices_calls']} random.choices calls by a loader that does not sample"
+        if not st["inputs_unchanged"]:
+            return what + "the caller's objects were modified by create_jdd()"
+        if not all(t for _, _, t in st["jdd"]):
+            return what + "a jdd key is not a tuple of ints"
+        if case["kind"] == 0 and not st["same_object"]:
+            return what + "manual loader does not expose the dictionary object it was given"
+    if len(io["then"]) != len(mo["then"]):
+        return "history stopped early"
+    return None
+
+
+def _chk(sc, io):
+    # sampling mode is judged on the answers the oracle ACTUALLY gave (scripted or fallback) to the calls actually made
+    return ("c06_check", [sc["kind"], payload(sc), io["answers"] if sc["kind"] == 3 else [],
+                          io["calls"] if sc["kind"] == 3 else [], [[k, q] for k, q, _ in io["jdd"]]])
+
+
+def _judged(case, io):
+    """[(label, case describing the CURRENT contents, observation)] of everything the verified checker judges"""
+    out = [("", case, io)]
+    for i, (sc, st) in enumerate(zip(step_cases(case), io.get("then", []))):
+        if not is_valid(sc):
+            break                   # an edit made the inputs malformed: what follows is compared with the model only
+        out.append((f"after the caller edited the objects it had passed in ({st['how']}, step {i + 1}) and asked again "
+                    f"(create_jdd() on the same loader, or a new loader from the same params dict): ", sc, st))
+    return out
+
+
 def check_calls(case, io):
     if core.is_exc(io) or not is_valid(case):
         return []
-    # sampling mode is judged on the answers the oracle ACTUALLY gave (scripted or fallback) to the calls actually made
-    return [("c06_check", [case["kind"], payload(case), io["answers"] if case["kind"] == 3 else [],
-                           io["calls"] if case["kind"] == 3 else [], [[k, q] for k, q, _ in io["jdd"]]])]
+    return [_chk(sc, o) for _, sc, o in _judged(case, io) if "exc" not in o]
 
 
 def check_verdict(case, io, raws):
@@ -492,10 +849,18 @@ def check_verdict(case, io, raws):
         if io[1] in ("OracleProtocol", "Timeout"):
             return None
         return f"{KINDS[case['kind']]} loader raised {io[1]} on a valid input (path {case.get('path', 0)})"
-    if not all(t for _, _, t in io["jdd"]):
-        return "a jdd key is not a tuple of ints"
-    if not raws or raws[0] != 1:
-        return f"c06_check rejected the {KINDS[case['kind']]} loader's distribution (path {case.get('path', 0)})"
+    raws = list(raws)
+    for what, sc, o in _judged(case, io):
+        if "exc" in o:
+            if o["exc"] in ("OracleProtocol", "Timeout"):
+                return None
+            return what + f"{KINDS[case['kind']]} loader raised {o['exc']} on a valid input"
+        raw = raws.pop(0) if raws else None
+        if not all(t for _, _, t in o["jdd"]):
+            return what + "a jdd key is not a tuple of ints"
+        if raw != 1:
+            return what + (f"c06_check rejected the {KINDS[case['kind']]} loader's distribution (path {case.get('path', 0)})"
+                           + (": it is not the law of the CURRENT contents" if what else ""))
     return None
 
 
@@ -507,6 +872,30 @@ def nontrivial_key(case, io):
 
 def shrink(case):
     k = case["kind"]
+    if "then" in case:
+        # histories shrink by dropping steps (from the end: a step builds on the one before) and the side edits
+        th = case["then"]
+        c = copy.deepcopy(case)
+        if len(th) > 1:
+            c["then"] = th[:-1]
+        else:
+            del c["then"]
+        yield c
+        for i, st in enumerate(th):
+            for f in ("damage", "sizes", "reload"):
+                if st.get(f):
+                    c = copy.deepcopy(case)
+                    del c["then"][i][f]
+                    yield c
+        if case.get("path", 0) == 1 and k != 3:
+            c = copy.deepcopy(case)
+            c["path"] = 0
+            yield c
+        if "opts" in case and k != 3:
+            c = copy.deepcopy(case)
+            del c["opts"]
+            yield c
+        return
     if "opts" in case:
         o = case["opts"]
         if k != 3 and (o.get("use_sampling", "absent") != "absent" or o.get("n_samples", "absent") != "absent"
@@ -590,8 +979,23 @@ def histogram(cases):
     h = {k: 0 for k in KINDS}
     h.update({"dispatcher_path": 0, "malformed": 0, "empty_box": 0, "max_box_points": 0, "use_sampling_explicit_False": 0,
               "n_samples_explicit_in_direct_mode": 0, "optional_keys_on_other_loaders": 0,
-              "empirical_column_total_not_multiple_of_size": 0})
+              "empirical_column_total_not_multiple_of_size": 0, "histories": 0, "history_steps": 0,
+              "steps_same_object_same_length": 0, "steps_same_object_other_length": 0, "steps_new_object": 0,
+              "steps_nothing_changed": 0})
     for c in cases:
+        if "then" in c:
+            h["histories"] += 1
+            cur = c
+            for st, sc in zip(c["then"], step_cases(c)):
+                h["history_steps"] += 1
+                if st["how"] in ("equal", "repeat"):
+                    h["steps_nothing_changed"] += 1
+                elif st["how"] == "setter" and c["kind"] in (0, 1):
+                    h["steps_new_object"] += 1
+                else:
+                    f = DATA[c["kind"]][0]
+                    h["steps_same_object_same_length" if len(sc[f]) == len(cur[f]) else "steps_same_object_other_length"] += 1
+                cur = sc
         h[KINDS[c["kind"]]] += 1
         h["dispatcher_path"] += c.get("path", 0)
         if not is_valid(c):
